@@ -3,10 +3,12 @@ import RustCcModel.Proofs.WeakInv9
 namespace RustCc
 open World
 
+variable {ex : Bool}
+
 /-- An update of one object that keeps its weak fields, side-record flag and liveness. -/
-theorem WeakH.updAt {w : World} {E : List Id} (h : WeakH w E) (t : Id) (F : Obj → Obj)
+theorem WeakH.updAt {w : World} {E : List Id} (h : WeakH ex w E) (t : Id) (F : Obj → Obj)
     (hws : (F (w.heap t)).wslots = (w.heap t).wslots) (hhm : (F (w.heap t)).hasMeta = (w.heap t).hasMeta)
-    (hbl : (F (w.heap t)).boxLive = (w.heap t).boxLive) : WeakH (w.upd t F) E := by
+    (hbl : (F (w.heap t)).boxLive = (w.heap t).boxLive) : WeakH ex (w.upd t F) E := by
   refine WeakH.neutral h rfl rfl rfl rfl rfl rfl ?_ ?_ ?_ <;> intro u <;> by_cases hu : u = t
   · subst hu; simpa using hws
   · simp [upd, Heap.set, hu]
@@ -15,22 +17,33 @@ theorem WeakH.updAt {w : World} {E : List Id} (h : WeakH w E) (t : Id) (F : Obj 
   · subst hu; simpa using hbl
   · simp [upd, Heap.set, hu]
 
-theorem WeakH.putH {w : World} {E : List Id} (h : WeakH w E) (k : Nat) (y : Id) : WeakH (w.putH k y) E := by
+theorem WeakH.putH {w : World} {E : List Id} (h : WeakH ex w E) (k : Nat) (y : Id) : WeakH ex (w.putH k y) E := by
   unfold World.putH
   split
   · wneutral h
   · wneutral h
 
-/-- Storing a `Cleanable` (holding a `Weak` in flight) in the table; whatever was there is forgotten. -/
-theorem WeakH.setK' {w : World} {E : List Id} (k : Nat) (v : Option (Id × Nat × Nat)) (h : WeakH w (kEntry v ++ E)) :
-    WeakH (w.setK k v) E := by
+/-- Storing a `Cleanable` (holding a `Weak` in flight) in the table; whatever was there is forgotten (a leak: not exact). -/
+theorem WeakH.setK' {w : World} {E : List Id} (k : Nat) (v : Option (Id × Nat × Nat)) (h : WeakH ex w (kEntry v ++ E)) :
+    WeakH false (w.setK k v) E := by
   cases Nat.lt_or_ge k w.K.length with
   | inl hk => exact (h.setK k v hk).forget (fun x => by simp [List.count_append])
   | inr hge =>
-    have h1 : WeakH w E := h.forget (fun x => by simp [List.count_append])
+    have h1 : WeakH false w E := h.forget (fun x => by simp [List.count_append])
     refine WeakH.neutral h1 rfl rfl ?_ rfl rfl rfl (fun _ => rfl) (fun _ => rfl) (fun _ => rfl)
     show w.K.set k v = w.K
     exact List.set_eq_of_length_le hge
+
+/-- The same, exact when the entry exists and is free. -/
+theorem WeakH.setKx {w : World} {E : List Id} (k : Nat) (v : Option (Id × Nat × Nat)) (h : WeakH ex w (kEntry v ++ E))
+    (hcl : ex = true → k < w.K.length ∧ w.getK k = none) : WeakH ex (w.setK k v) E := by
+  cases ex with
+  | false => exact WeakH.setK' k v h
+  | true =>
+    obtain ⟨hk, hg⟩ := hcl rfl
+    have := h.setK k v hk
+    rw [hg] at this
+    simpa [kEntry] using this
 
 theorem optIds_set_le (l : List (Option Id)) (i : Nat) (v : Option Id) (x : Id) :
     (optIds (l.set i v)).count x ≤ (optIds l).count x + v.toList.count x := by
@@ -81,8 +94,8 @@ theorem takeField_weak_w {o o' : Obj} {y : Id} (h : takeField o = (.weak y, o'))
 variable (c : Cfg) (w : World)
 
 theorem stepFrame_weakH_script (ops : List Op) (self wc : Option Id) (top : Bool) (rest : List Frame)
-    (ha : AllInv c w) (h : WeakOk w) (hs : w.stack = .script ops self wc top :: rest) :
-    WeakH (stepFrame c { w with stack := rest } (.script ops self wc top)) [] := by
+    (ha : AllInv c w) (h : WeakH ex w []) (hwc : wcOk w.stack) (hs : w.stack = .script ops self wc top :: rest) :
+    WeakH ex (stepFrame c { w with stack := rest } (.script ops self wc top)) [] := by
   have hc := ha.counts
   have hf := ha.flags
   have hi := ha.inv
@@ -91,7 +104,7 @@ theorem stepFrame_weakH_script (ops : List Op) (self wc : Option Id) (top : Bool
   have hp' : CountsH false { w with stack := rest } [] := by cases self <;> exact hp
   have hself : ∀ s, self = some s → s < w.next := by
     intro s hs; subst hs; exact hids s (by simp [Frame.ids])
-  have hw0 : WeakH { w with stack := rest } [] := (h.pop hs).1
+  have hw0 : WeakH ex { w with stack := rest } [] := h.pop hs
   cases ops with
   | nil => simp only [stepFrame]; exact hw0
   | cons op ops =>
@@ -100,11 +113,11 @@ theorem stepFrame_weakH_script (ops : List Op) (self wc : Option Id) (top : Bool
       (by cases self <;> simpa [Frame.ids] using hself)).toCounts0
     have hi1 : Inv (({ w with stack := rest } : World).push (.script ops self wc top)) :=
       h0.step (WOI.same h0.oi rfl rfl) [.script ops self wc top] (by plain_tac) rfl
-    have hw1 : WeakH (({ w with stack := rest } : World).push (.script ops self wc top)) [] :=
+    have hw1 : WeakH ex (({ w with stack := rest } : World).push (.script ops self wc top)) [] :=
       WeakH.pushFrame (.script ops self wc top) hw0
     have hwc : ∀ x, wc = some x → x ∈ cycs (({ w with stack := rest } : World).push (.script ops self wc top)).stack := by
       intro x hx
-      have h1 := h.wcs
+      have h1 := hwc
       rw [hs] at h1
       have h2 := h1.1 x (by simpa [Frame.wcId] using hx)
       simpa [cycs_cons, Frame.cyc] using h2
@@ -114,9 +127,9 @@ theorem stepFrame_weakH_script (ops : List Op) (self wc : Option Id) (top : Bool
     · exact h2.ret _
 
 theorem stepFrame_weakH_afterDropValue (x : Id) (oldDrop : Bool) (rest : List Frame)
-    (h : WeakOk w) (hs : w.stack = .afterDropValue x oldDrop :: rest) :
-    WeakH (stepFrame c { w with stack := rest } (.afterDropValue x oldDrop)) [] := by
-  have hw0 : WeakH { w with stack := rest } [] := (h.pop hs).1
+    (h : WeakH ex w []) (hwc : wcOk w.stack) (hs : w.stack = .afterDropValue x oldDrop :: rest) :
+    WeakH ex (stepFrame c { w with stack := rest } (.afterDropValue x oldDrop)) [] := by
+  have hw0 : WeakH ex { w with stack := rest } [] := h.pop hs
   simp only [stepFrame]
   split
   · wneutral hw0
@@ -124,9 +137,9 @@ theorem stepFrame_weakH_afterDropValue (x : Id) (oldDrop : Bool) (rest : List Fr
     wneutral h1
 
 theorem stepFrame_weakH_dropFields (x : Id) (unw : Bool) (rest : List Frame)
-    (ha : AllInv c w) (h : WeakOk w) (hs : w.stack = .dropFields x unw :: rest) :
-    WeakH (stepFrame c { w with stack := rest } (.dropFields x unw)) [] := by
-  have hw0 : WeakH { w with stack := rest } [] := (h.pop hs).1
+    (ha : AllInv c w) (h : WeakH ex w []) (hwc : wcOk w.stack) (hs : w.stack = .dropFields x unw :: rest) :
+    WeakH ex (stepFrame c { w with stack := rest } (.dropFields x unw)) [] := by
+  have hw0 : WeakH ex { w with stack := rest } [] := h.pop hs
   obtain ⟨_, hids⟩ := ha.counts.pop hs
   have hx : x < w.next := hids x (by simp [Frame.ids])
   simp only [stepFrame]
@@ -138,24 +151,24 @@ theorem stepFrame_weakH_dropFields (x : Id) (unw : Bool) (rest : List Frame)
   · rename_i y o' htf
     obtain ⟨h1, h2, h3⟩ := takeField_weak_w htf
     have h4 := WeakH.updWslots (w := { w with stack := rest }) (E := []) x (fun _ => o') [] [y] (by simpa using hw0) hx
-      (fun z => by have := h1 z; simpa using Nat.le_of_eq this) h2 h3
-    have h5 : WeakH (((World.upd { w with stack := rest } x fun _ => o').push (.dropFields x unw))) ([y] ++ []) := by wneutral h4
+      (fun z => by have := h1 z; simpa using this) h2 h3
+    have h5 : WeakH ex (((World.upd { w with stack := rest } x fun _ => o').push (.dropFields x unw))) ([y] ++ []) := by wneutral h4
     exact WeakH.weakDrop h5
   · split
     · wneutral hw0
     · exact hw0
 
-theorem WeakH.foldl_free (c : Cfg) {E : List Id} : ∀ (N : List Id) {w : World}, WeakH w E →
-    WeakH (N.foldl (fun w x => (if c.weak then w.dropMetadata x else w).freeBox x) w) E
+theorem WeakH.foldl_free (c : Cfg) {E : List Id} : ∀ (N : List Id) {w : World}, WeakH ex w E →
+    WeakH ex (N.foldl (fun w x => (if c.weak then w.dropMetadata x else w).freeBox x) w) E
   | [], _, h => h
   | y :: r, w, h => by
     simp only [List.foldl_cons]
     exact WeakH.foldl_free c r (h.freeStep c y)
 
 theorem stepFrame_weakH_deallocDrop (N r : List Id) (oldDrop : Bool) (rest : List Frame)
-    (h : WeakOk w) (hs : w.stack = .deallocDrop N r oldDrop :: rest) :
-    WeakH (stepFrame c { w with stack := rest } (.deallocDrop N r oldDrop)) [] := by
-  have hw0 : WeakH { w with stack := rest } [] := (h.pop hs).1
+    (h : WeakH ex w []) (hwc : wcOk w.stack) (hs : w.stack = .deallocDrop N r oldDrop :: rest) :
+    WeakH ex (stepFrame c { w with stack := rest } (.deallocDrop N r oldDrop)) [] := by
+  have hw0 : WeakH ex { w with stack := rest } [] := h.pop hs
   cases r with
   | cons x r =>
     simp only [stepFrame]
@@ -169,9 +182,9 @@ theorem stepFrame_weakH_deallocDrop (N r : List Id) (oldDrop : Bool) (rest : Lis
       wneutral h1
 
 theorem stepFrame_weakH_newAlloc (k : Nat) (sp : NewSpec) (rest : List Frame)
-    (ha : AllInv c w) (h : WeakOk w) (hs : w.stack = .newAlloc k sp :: rest) :
-    WeakH (stepFrame c { w with stack := rest } (.newAlloc k sp)) [] := by
-  have hw0 : WeakH { w with stack := rest } [] := (h.pop hs).1
+    (ha : AllInv c w) (h : WeakH ex w []) (hwc : wcOk w.stack) (hs : w.stack = .newAlloc k sp :: rest) :
+    WeakH ex (stepFrame c { w with stack := rest } (.newAlloc k sp)) [] := by
+  have hw0 : WeakH ex { w with stack := rest } [] := h.pop hs
   have hacc := ha.counts.mfresh w.next (Nat.le_refl _)
   simp only [stepFrame]
   refine WeakH.putH ?_ k _
@@ -179,12 +192,12 @@ theorem stepFrame_weakH_newAlloc (k : Nat) (sp : NewSpec) (rest : List Frame)
     (by simp [newObj, optIds_replicate_none]) rfl
 
 theorem stepFrame_weakH_mapAlloc (owner : Id) (rest : List Frame)
-    (ha : AllInv c w) (h : WeakOk w) (hs : w.stack = .mapAlloc owner :: rest) :
-    WeakH (stepFrame c { w with stack := rest } (.mapAlloc owner)) [] := by
-  have hw0 : WeakH { w with stack := rest } [] := (h.pop hs).1
+    (ha : AllInv c w) (h : WeakH ex w []) (hwc : wcOk w.stack) (hs : w.stack = .mapAlloc owner :: rest) :
+    WeakH ex (stepFrame c { w with stack := rest } (.mapAlloc owner)) [] := by
+  have hw0 : WeakH ex { w with stack := rest } [] := h.pop hs
   have hacc := ha.counts.mfresh w.next (Nat.le_refl _)
   simp only [stepFrame]
-  have h1 : WeakH (World.emit { ({ ({ w with stack := rest } : World) with next := w.next + 1 } : World) with heap := w.heap.set w.next ({ rc := 1, tc := c.tcInit, boxLive := true, valLive := true, kind := .map, size := c.mapSize, finalized := c.fin && w.finalizing } : Obj), allocBytes := w.allocBytes + c.mapSize } (.alloc w.next c.mapSize)) [] :=
+  have h1 : WeakH ex (World.emit { ({ ({ w with stack := rest } : World) with next := w.next + 1 } : World) with heap := w.heap.set w.next ({ rc := 1, tc := c.tcInit, boxLive := true, valLive := true, kind := .map, size := c.mapSize, finalized := c.fin && w.finalizing } : Obj), allocBytes := w.allocBytes + c.mapSize } (.alloc w.next c.mapSize)) [] :=
     hw0.alloc ({ rc := 1, tc := c.tcInit, boxLive := true, valLive := true, kind := .map, size := c.mapSize, finalized := c.fin && w.finalizing } : Obj) hacc
       rfl rfl rfl rfl rfl rfl rfl (by simp [optIds]) rfl
   split
@@ -192,11 +205,11 @@ theorem stepFrame_weakH_mapAlloc (owner : Id) (rest : List Frame)
   · wneutral h1
 
 theorem stepFrame_weakH_newCyclicAlloc (k : Nat) (sp : NewSpec) (body : Nat) (selfw : Option Nat) (rest : List Frame)
-    (h : WeakOk w) (hs : w.stack = .newCyclicAlloc k sp body selfw :: rest) :
-    WeakH (stepFrame c { w with stack := rest } (.newCyclicAlloc k sp body selfw)) [] := by
-  have hw0 : WeakH { w with stack := rest } [] := (h.pop hs).1
+    (h : WeakH ex w []) (hwc : wcOk w.stack) (hs : w.stack = .newCyclicAlloc k sp body selfw :: rest) :
+    WeakH ex (stepFrame c { w with stack := rest } (.newCyclicAlloc k sp body selfw)) [] := by
+  have hw0 : WeakH ex { w with stack := rest } [] := h.pop hs
   simp only [stepFrame]
-  have h1 : WeakH (World.updMeta (World.emit { ({ w with stack := rest } : World) with next := w.next + 1, heap := w.heap.set w.next ({ newObj c { w with stack := rest } sp with rc := 0, valLive := false, hasMeta := true } : Obj), allocBytes := w.allocBytes + (newObj c { w with stack := rest } sp).size } (.alloc w.next (newObj c { w with stack := rest } sp).size)) w.next (fun _ => { weak := 1, accessible := true, live := true })) [w.next] :=
+  have h1 : WeakH ex (World.updMeta (World.emit { ({ w with stack := rest } : World) with next := w.next + 1, heap := w.heap.set w.next ({ newObj c { w with stack := rest } sp with rc := 0, valLive := false, hasMeta := true } : Obj), allocBytes := w.allocBytes + (newObj c { w with stack := rest } sp).size } (.alloc w.next (newObj c { w with stack := rest } sp).size)) w.next (fun _ => { weak := 1, accessible := true, live := true })) [w.next] :=
     hw0.allocCyc ({ newObj c { w with stack := rest } sp with rc := 0, valLive := false, hasMeta := true } : Obj)
       rfl rfl rfl rfl rfl rfl rfl (by simp [newObj, optIds_replicate_none]) rfl
   have h2 := WeakH.pushFrame (.newCyclicEnd k w.next sp selfw) (E := []) h1
